@@ -1,0 +1,12 @@
+//go:build verif
+
+package gcs
+
+// Hooks for the verification harness (/verif).  Add-only; compiled only with -tags verif.
+
+// VerifFastReduction exposes the portable 64x64->high-64 multiply used to map
+// hashes into [0, N*M).
+func VerifFastReduction(v, nHi, nLo uint64) uint64 { return fastReduction(v, nHi, nLo) }
+
+// VerifModulusNP exposes the stored modulus N*M (mod 2^64) of a filter.
+func VerifModulusNP(f *Filter) uint64 { return f.modulusNP }
